@@ -252,6 +252,13 @@ impl<'a> Probe<'a> {
             setups.push((vec![range.clone(), range.clone()], scattered[0]));
             setups.push((vec![range.clone(), range.clone()], scattered[3]));
         }
+        // three and four seats: blocking between seats that are not neighbours
+        if n >= 2 && n <= 12 {
+            setups.push((vec![range.clone(), range.clone(), range.clone()], scattered[3]));
+        }
+        if n >= 2 && n <= 6 {
+            setups.push((vec![range.clone(), range.clone(), range.clone(), range.clone()], scattered[1]));
+        }
         for (players, (from, to)) in setups {
             let which = self.which;
             let mut bad: Option<String> = None;
@@ -529,6 +536,8 @@ fn run_job(job: &Job, which: Which, seed: u64, t: &Tables, report: &mut Report, 
                     probe.report.count("comma_lists", *n as u64);
                 }
                 Job::Weights { lo, hi } => {
+                    // the same seven token bodies under every literal: the hand-off needs no complete drains here
+                    probe.light = true;
                     for lit in &literals[*lo..*hi] {
                         for ex in SHAPE_EXAMPLES {
                             let s = format!("{}:{}", ex, lit);
